@@ -666,8 +666,12 @@ def run_c15(ctx, ck):
                       found_input=False)
     if missing and not ctx.violations:
         # the source changed but the sampled tuples show no difference: enumerate the affected functions exhaustively
-        s2 = ck.run_stream(ctx, "strlib", 0, seed_off=1, extra_env={"STRLIB_FUNCS": ",".join(sorted(affected))})
-        compare(ctx, s2, "exhaustive argument space of the functions whose source changed (%s)" % ",".join(sorted(affected)), sig, describe, lambda k, s: True)
+        s2 = ck.run_stream(ctx, "strlib", 0, seed_off=1, extra_env={"STRLIB_FUNCS": ",".join(sorted(changed))})
+        compare(ctx, s2, "exhaustive argument space of the functions whose source changed (%s)" % ",".join(sorted(changed)), sig, describe, lambda k, s: True)
+        callers = sorted(affected - set(changed))
+        if callers and not ctx.violations:
+            s3 = ck.run_stream(ctx, "strlib", 3000 * len(callers), seed_off=2, extra_env={"STRLIB_FUNCS": ",".join(callers)})
+            compare(ctx, s3, "callers of the changed functions (%s), 3000 tuples each" % ",".join(callers), sig, describe, lambda k, s: True)
     if missing and not ctx.violations:
         ctx.violation("std/strings.tsh changed: the functions %s are no longer quoted line for line by the transliteration coq/Lib/StrLib.v, e.g. %r\n"
                       "no behavioural difference was found, also not on the exhaustive argument space of these functions\n" % (",".join(changed), missing[0]), found_input=False)
